@@ -182,3 +182,10 @@ package openapi3
 //@   ensures [encodings-validated] result == nil && mediaType != nil ==> (forall k string :: old(has(mediaType.Encoding, k)) ==> encodingOK(old(mediaType.Encoding[k])))
 //@   option safety-tags C20
 //@   tag C04
+
+// a header's serialisation method: simple style by default, never an error
+//@ func (*Header).SerializationMethod
+//@   requires header != nil
+//@   modifies nothing
+//@   ensures result.1 == nil && result.0 != nil
+//@   tag C08
